@@ -4,15 +4,19 @@ import prov
 
 RULE = ("cases: histories (authorize, redeem with separate parse/process, refresh with/without scope, userinfo, introspect, revocation endpoint, "
         "revoke_token API recursive or not, revoke_grant, logout/revoke_client_session, user-level revocation, remove_session, clock advance) "
-        "over 2 users x 3 clients, OIDC and OAuth2 token endpoints, opaque and JWT handlers, generated against the live provider so that every "
+        "over 2 users x 3 clients, OIDC and OAuth2 token endpoints, opaque and JWT handlers, plus (opaque handlers, usage rules that let access "
+        "tokens be exchanged) token exchange by the owning or another client for an access or refresh token with or without a scope; "
+        "generated against the live provider so that every "
         "handle is real; after every step the outcome and the projection (class, grant, based_on, used, revoked, expiry, scope) of every token "
         "are compared with the Lean model, and every token minted so far is probed at userinfo and introspection against a reference "
         "liveness rule. non-trivial: history with at least one revocation/tick and at least 3 tokens")
 MODELLED = ("modelled: Item.is_active, Grant.mint_token/revoke_token/find_scope/revoke, token endpoint helpers (code, refresh; OIDC and OAuth2), "
             "userinfo/introspection/revocation process_request decision logic, SessionManager.revoke_token/revoke_grant/revoke_client_session/"
-            "remove_session. NOT modelled: token exchange, client-credentials/password grants, DPoP, resource indicators, revoke_refresh_on_issue=true")
+            "remove_session, TokenExchangeHelper (parse + process, ExchangeGrant for another client, inherited expiry). NOT modelled: token exchange "
+            "with JWT handlers (the JWT's own exp then differs from expires_at), client-credentials/password grants, DPoP, resource indicators, "
+            "revoke_refresh_on_issue=true")
 ASSUMPTIONS = ["token values and grant ids are fresh", "client authentication succeeds for the owning client (C01 covers it)",
-               "token exchange across grants is outside the model (F-C03-b is reported from the oracle only)"]
+               "token exchange histories run with opaque token handlers only"]
 
 
 def chain_case(rng, oidc, jwt):
@@ -70,7 +74,108 @@ def cases(rng, tier):
         jwt = rng.random() < 0.3
         seed = rng.getrandbits(48)
         out.append({"t": "hist", "oidc": oidc, "jwt": jwt, "gen_seed": seed, "n": rng.randint(8, 22 if tier == "quick" else 40)})
+    for _ in range({"quick": 16, "thorough": 200, "search": 120}[tier]):
+        out.append({"t": "session", "oidc": rng.random() < 0.7, "jwt": rng.random() < 0.3, "seed": rng.getrandbits(32)})
+    for _ in range({"quick": 10, "thorough": 120, "search": 80}[tier]):
+        out.append({"t": "xchain", "oidc": rng.random() < 0.6, "jwt": False, "usage": "exchange", "seed": rng.getrandbits(32)})
+    for i in range(n // 2):
+        out.append({"t": "hist", "oidc": rng.random() < 0.6, "jwt": False, "usage": "exchange", "gen_seed": rng.getrandbits(48),
+                    "n": rng.randint(10, 24 if tier == "quick" else 40)})
     return out
+
+
+XW = dict(redeem=25, exchange=22, authorize=14)
+
+
+def _session_ops(c):
+    """logins of one user at several clients, logout from one / from all (Session endpoint paths), login again at the same client
+    after the logout, a second logout; optionally the clock moves past the ID-token lifetime before a logout; then everything probed"""
+    import random
+    rng = random.Random(c["seed"])
+    R = prov.Runner(c["oidc"], c["jwt"])
+    ops = []
+
+    def do(o):
+        ops.append(o)
+        return R.op(o)
+
+    def login(user, cl):
+        red = f"https://{cl}.example.com/cb"
+        r = do(["authorize", user, cl, ["openid", "offline_access", "email"], red])
+        if r[0] == "code":
+            do(["tokenParse", cl, r[1], red]); do(["tokenProcess", 0])
+    clients = rng.sample(prov.CLIENTS, rng.randint(2, 3))
+    for cl in clients:
+        login("diana", cl)
+    if rng.random() < 0.5:
+        login("bob", clients[0])
+    for rnd in range(rng.randint(1, 3)):
+        if rng.random() < 0.5:
+            do(["tick", rng.choice([301, 1000, 3000])])
+        k = rng.choice(["one", "one", "all", "all", "user"])
+        if k == "one":
+            do(["revokeClient", "diana", rng.choice(clients)])
+        elif k == "all":
+            do(["logoutAll", "diana"])
+        else:
+            do(["revokeUser", "diana"])
+        for cl in rng.sample(clients, rng.randint(1, len(clients))):
+            login("diana", cl)          # the user comes back
+    do(["logoutAll", "diana"] if rng.random() < 0.5 else ["revokeClient", "diana", clients[0]])
+    for t in sorted(R.val):
+        do(["userinfo", t]); do(["introspect", "client_1", t])
+    return ops
+
+
+def _xchain_ops(c):
+    """code -> (AT, RT); AT / RT exchanged by the owner and by another client, exchanged tokens exchanged again; then one of the
+    ancestors dies (revocation endpoint, API recursive or not, grant, logout, expiry) and everything is probed and offered for exchange"""
+    import random
+    rng = random.Random(c["seed"])
+    red = "https://client_1.example.com/cb"
+    R = prov.Runner(c["oidc"], False, usage="exchange")
+    ops = []
+
+    def do(o):
+        ops.append(o)
+        return R.op(o)
+    do(["authorize", "diana", "client_1", ["openid", "offline_access", "email", "profile"], red])
+    do(["tokenParse", "client_1", 1, red])
+    r = do(["tokenProcess", 0])
+    if r[0] != "tokens":
+        return ops
+    at, rt = r[1], r[2]
+    minted = []
+    for _ in range(rng.randint(2, 4)):
+        subj = rng.choice([at, rt] + minted)
+        styp = "access" if subj == at or (subj in minted and rng.random() < 0.8) else "refresh"
+        x = do(["exchange", rng.choice(["client_1", "client_2", "client_3"]), subj, styp, rng.choice([None, "access", "refresh"]),
+                rng.choice([None, ["openid"], ["openid", "offline_access"], ["email", "foo"]])])
+        if x[0] == "exchanged":
+            minted.append(x[1])
+    kill = rng.choice(["ep", "api", "apirec", "grant", "client", "user", "tick", "replay"])
+    victim = rng.choice([at, rt] + minted)
+    if kill == "ep":
+        do(["revokeEp", "client_1", victim])
+    elif kill == "api":
+        do(["revokeTok", victim, False])
+    elif kill == "apirec":
+        do(["revokeTok", rng.choice([1, at, rt]), True])
+    elif kill == "grant":
+        do(["revokeGrant", 0])
+    elif kill == "client":
+        do(["revokeClient", "diana", "client_1"])
+    elif kill == "user":
+        do(["revokeUser", "diana"])
+    elif kill == "tick":
+        do(["tick", rng.choice([3601, 86401])])
+    elif c["oidc"]:
+        do(["tokenParse", "client_1", 1, red])
+    for t in sorted(R.val):
+        do(["userinfo", t]); do(["introspect", "client_1", t])
+    for t in [at, rt] + minted:
+        do(["exchange", rng.choice(["client_1", "client_2"]), t, "access" if t != rt else "refresh", None, None])
+    return ops
 
 
 def _ops_for(c):
@@ -78,14 +183,19 @@ def _ops_for(c):
         return c["ops"]
     if c["t"] == "chain":
         return _chain_ops(c)
+    if c["t"] == "xchain":
+        return _xchain_ops(c)
+    if c["t"] == "session":
+        return _session_ops(c)
     import random
-    ops, _ = prov.gen_adaptive(random.Random(c["gen_seed"]), c["n"], oidc=c["oidc"], jwt=c["jwt"])
+    ops, _ = prov.gen_adaptive(random.Random(c["gen_seed"]), c["n"], oidc=c["oidc"], jwt=c["jwt"], usage=c.get("usage"),
+                               weights=XW if c.get("usage") == "exchange" else None)
     return ops
 
 
 def impl(c):
     ops = _ops_for(c)
-    R = prov.Runner(c["oidc"], c["jwt"])
+    R = prov.Runner(c["oidc"], c["jwt"], usage=c.get("usage"))
     steps = []
     for o in ops:
         r = R.op(o)
@@ -109,7 +219,7 @@ def _owner(R, hnd):
 
 
 def model_lines(c, obs):
-    return [prov.cfg_line(c["oidc"], c["jwt"])] + [prov.model_line(o) for o in obs["ops"]]
+    return [prov.cfg_line(c["oidc"], c["jwt"], c.get("usage"))] + [prov.model_line(o) for o in obs["ops"]]
 
 
 def compare(c, obs, outs):
@@ -122,6 +232,8 @@ def oracle(c, obs):
     v = []
     ops = obs["ops"]
     dead = set()
+    removed = set()
+    xgrant = set()  # dead only through a derivation that crosses grants (token exchange by another client)
     info = {}      # handle -> [cls, grant, based_on, exp]
     grant_of = {}  # grant handle -> (user, client) learnt from authorize ops in order
     prev_status = {}
@@ -133,17 +245,35 @@ def oracle(c, obs):
             ginfo = info.get(st["raw"][1])
             if ginfo:
                 grant_of[ginfo[1]] = (o[1], o[2])
+        if o[0] == "exchange" and st["raw"][0] == "exchanged":
+            ninfo, sinfo = info.get(st["raw"][1]), info.get(o[2])
+            if ninfo and sinfo and ninfo[1] not in grant_of and sinfo[1] in grant_of:
+                grant_of[ninfo[1]] = (grant_of[sinfo[1]][0], o[1])      # the ExchangeGrant: the subject's user, the exchanging client
+            was_dead = o[2] in dead or (sinfo is not None and sinfo[3] != 0 and st["now"] > sinfo[3])
+            if was_dead or o[2] in xgrant:
+                v.append({"cls": "dead-token-honoured", "step": i, "op": "exchange", "token_class": sinfo[0] if sinfo else "?",
+                          "cross_grant": not was_dead, "why": "exchange minted from a dead subject token"})
+        if o[0] == "refresh" and st["raw"][0] == "tokens" and (o[2] in dead):
+            v.append({"cls": "dead-token-honoured", "step": i, "op": "refresh", "token_class": "refresh", "cross_grant": False, "why": "refresh minted from a dead token"})
 
         def desc(x):
-            out, todo = set(), [x]
+            """everything derived from x, in whatever grant (an exchange by another client puts the new token in a grant of its own);
+            second component: the ones whose derivation crosses a grant boundary"""
+            out, cross, todo = set(), set(), [x]
             while todo:
                 y = todo.pop()
                 for h2, inf in info.items():
-                    if inf[2] == y and inf[1] == info[x][1] and h2 not in out:
+                    if inf[2] == y and h2 not in out:
                         out.add(h2); todo.append(h2)
-            return out
+                        if inf[1] != info[y][1] or y in cross:
+                            cross.add(h2)
+            xgrant.update(cross - dead)
+            for h2 in out:
+                addressed_more.add(info[h2][1])
+            return out - cross
 
         addressed = None
+        addressed_more = set()
         k = o[0]
         ok = st["raw"][0] != "err"
         if k == "revokeTok" and ok and o[1] in info:
@@ -160,8 +290,18 @@ def oracle(c, obs):
         elif k == "revokeUser" and ok:
             gs = {g for g, uc in grant_of.items() if uc[0] == o[1]}
             dead |= {h for h, inf in info.items() if inf[1] in gs}; addressed = gs
+        elif k == "logoutAll" and ok:
+            # every client session that is told about the logout (the client registered a logout URI, an ID token was issued in the session)
+            # is over afterwards, whatever the age or state of that ID token
+            gs = set()
+            for g, uc in grant_of.items():
+                if uc[0] == o[1] and prov.LOGOUT.get(uc[1]):
+                    same = {g2 for g2, uc2 in grant_of.items() if uc2 == uc and g2 not in removed}
+                    if any(inf[0] == "idtoken" and inf[1] in same for inf in info.values()):
+                        gs |= same
+            dead |= {h for h, inf in info.items() if inf[1] in gs}; addressed = {g for g, uc in grant_of.items() if uc[0] == o[1]}
         elif k == "remove" and ok:
-            dead |= {h for h, inf in info.items() if inf[1] == o[1]}; addressed = {o[1]}
+            dead |= {h for h, inf in info.items() if inf[1] == o[1]}; addressed = {o[1]}; removed.add(o[1])
         elif k == "tokenParse" and c["oidc"] and not ok and o[2] in info and info[o[2]][0] == "code":
             # second presentation of a used code at the OIDC endpoint invalidates what was minted from it
             used = [t for t in st["proj"]["toks"] if t[0] == o[2] and t[4] > 0]
@@ -172,12 +312,15 @@ def oracle(c, obs):
             if inf is None:
                 continue
             expired = inf[3] != 0 and st["now"] > inf[3]
-            if (hnd in dead or expired) and (ui or it):
+            if (hnd in dead or hnd in xgrant or expired) and (ui or it):
                 v.append({"cls": "dead-token-honoured", "step": i, "op": k, "token_class": inf[0], "userinfo": ui, "introspect": it,
-                          "why": "revoked/removed" if hnd in dead else "expired"})
+                          "cross_grant": hnd not in dead and not expired,
+                          "why": "revoked/removed" if hnd in dead else ("expired" if expired else
+                                 "an ancestor in another grant was revoked recursively (token exchange by another client)")})
             if (ui and inf[0] != "access") or (it and inf[0] not in ("access", "refresh")):
                 v.append({"cls": "wrong-class-honoured", "step": i, "token_class": inf[0]})
         if addressed is not None:
+            addressed = set(addressed) | addressed_more
             for hnd, stt in st["status"].items():
                 inf = info.get(hnd)
                 if inf and inf[1] not in addressed and hnd in prev_status and prev_status[hnd] != stt:
